@@ -286,7 +286,7 @@ class MessagePackRpc(MessagePackDocument):
             raise MessagePackDecodeError("Notifications are not supported")
 
         else:
-            raise MessagePackDecodeError("Unknown message type %r" % msgtype)
+            raise MessagePackDecodeError("Unknown message type %r" % (msgtype,))
 
         ctx.method_request_string = '{%s}%s' % (self.app.interface.get_tns(),
                                                                msgname_or_error)
